@@ -5,7 +5,6 @@ import (
 	"errors"
 	"fmt"
 	"io"
-	"strings"
 )
 
 type NameAddr struct {
@@ -14,8 +13,8 @@ type NameAddr struct {
 }
 
 func ParseNameAddr(nameAddr string) (*NameAddr, error) {
-	pos1 := strings.IndexByte(nameAddr, '<')
-	pos2 := strings.IndexByte(nameAddr, '>')
+	pos1 := indexUnquoted(nameAddr, '<')
+	pos2 := indexUnquoted(nameAddr, '>')
 	if pos1 == -1 || pos2 == -1 || pos2 < pos1 {
 		return nil, errors.New("malformatted name-addr")
 	}
